@@ -28,6 +28,8 @@ MC_CFG = """SPECIFICATION Spec
 CHECK_DEADLOCK FALSE
 CONSTANTS
   AsBuiltReader = %s
+  AsBuiltWriter = %s
+  Wide = %s
 INVARIANT StyleOK
 INVARIANT WriterLayout
 INVARIANT DeclarativeRead
@@ -538,11 +540,12 @@ def make_recipes(ctx):
 
 
 def run(ctx, explain=False):
-    ctx.model_check("mc/MC_MolFormats.tla", MC_CFG % "FALSE", name="MC_MolFormats(spec reader)", timeout=600)
+    ctx.model_check("mc/MC_MolFormats.tla", MC_CFG % ("FALSE", "FALSE", ctx.pick("FALSE", "TRUE")), name="MC_MolFormats(spec reader)", timeout=600)
     if explain:
-        res = tlc.run("mc/MC_MolFormats.tla", MC_CFG % "TRUE", timeout=600)
-        print("as-built property-block loop of parse_sdf_contents (no bound on the line index): violated", res.violated)
-        print(res.stdout[-1500:])
+        for what, cfg in (("reader: property-block loop of parse_sdf_contents without a bound on the line index", ("TRUE", "FALSE", "FALSE")),
+                          ("writer: x in all three columns, blanks between the fields, blank-sign counts", ("FALSE", "TRUE", "FALSE"))):
+            res = tlc.run("mc/MC_MolFormats.tla", MC_CFG % cfg, timeout=600)
+            print("as-built %s: first invariant TLC finds violated: %s" % (what, res.violated))
     recipes = make_recipes(ctx)
     # a few hundred small molecules take ~1.5 s in-process; forking 16 workers costs more than that
     traces = pool_map(drive, recipes, procs=1 if ctx.quick else None)
